@@ -203,7 +203,8 @@ def harness_for(item):
                 return res
             with patched((UL, "hypotest", constrained)):
                 if entry == "toms748_scan":
-                    out = UL.toms748_scan(data, model, lo, hi, level=level, from_upper_limit_fn=True, **kw)
+                    atol, rtol = env.sym("atol", positive=True), env.sym("rtol", positive=True)
+                    out = UL.toms748_scan(data, model, lo, hi, level=level, atol=atol, rtol=rtol, from_upper_limit_fn=True, **kw)
                 elif entry == "upper_limit":
                     out = UL.upper_limit(data, model, level=level, return_results=True, **kw)
                 else:
@@ -213,6 +214,12 @@ def harness_for(item):
                         out = pyhf.infer.intervals.upperlimit(data, model, None, level, True, **kw)
         obs, exp, (pts, results) = out
         key = f"auto:{entry}"
+        # "within the root-finder tolerance": the tolerances of the call reach every root search unchanged
+        want_atol, want_rtol = (atol, rtol) if entry == "toms748_scan" else (Fraction(2e-12), Fraction(1e-4))
+        env.holds("six-root-searches", len(root.calls) == 6, key=f"{key}:roots")
+        for j, rc in enumerate(root.calls):
+            env.eq(f"root[{j}]:xtol", rc["xtol"], want_atol, key=f"{key}:tolerance")
+            env.eq(f"root[{j}]:rtol", rc["rtol"], want_rtol, key=f"{key}:tolerance")
         # the limits are roots of the corresponding curve at the CALLER's level
         def curve_at(mu, k):
             for c in curves.calls:
